@@ -156,7 +156,8 @@ func (w *Workload) Gen(t *Tape, n *Node, now time.Time, stored Logical) []AppOp 
 			}
 			overlay[op.DBI+"/"+string(op.Key)] = op.TS
 			if op.Kind == OpPut && t.Chance("app-extra", w.ExtraHdr) {
-				op.Extra = 1 + t.Choose("app-extran", 3)
+				// extension block counts across the uint8/uint16 boundaries
+				op.Extra = []int{1, 2, 3, 1, 2, 255, 256, 8191, 8192, 8193, 65535}[t.Weighted("app-extran", []int{30, 20, 10, 10, 10, 4, 4, 3, 4, 3, 2})]
 			}
 		}
 		ops = append(ops, op)
